@@ -140,7 +140,7 @@ def main():
             outs.append(seeded_call(var.get("logs"), vi))
         except Exception as e:
             outs.append(None)
-            errors.append({"variant": vi, "type": type(e).__name__, "msg": str(e)[:300], "tb": traceback.format_exc()[-700:]})
+            errors.append({"variant": vi, "type": type(e).__name__, "msg": str(e)[:300], "tb": traceback.format_exc()[-3000:]})
         finally:
             torch.set_default_dtype(torch.float32)
     print(json.dumps({"digests": outs, "errors": errors}))
